@@ -63,6 +63,22 @@ of the package, every class through its MRO, static / class methods), never list
      (layer2_uncovered_aliases).  Same for obsolete keywords: f(old=v) vs f(new=v).  For aliases shadowed by a
      re-declaration in the receiver's class: every explicit path, old vs new called the SAME way on real receivers
      (``Expression.getValue(Numeric(2))`` vs ``Expression.get_value(Numeric(2))``, ``super(Numeric, e).getValue()`` ...).
+ ENV the CALLER'S AMBIENT CONFIGURATION and what the call leaves behind (all other layers observe inside one recording context
+     that shows every warning).  Every alias (toy declarations ENV0; ENV1: every module-level binding, every obsolete keyword,
+     every (receiver class, alias) pair) x ambient configuration = base filter list {inherited, reset} x stack of warning
+     filters (action {ignore, error, always, default, module, once} x category {DeprecationWarning, Warning, an unrelated one,
+     PendingDeprecationWarning} x message {any, names the replacement, matches nothing}: every single filter, every ordered
+     stack of two on a 24-filter alphabet, of three on a 6-filter one) x display channel {recording context, the program's
+     own showwarning hook, text on stderr, logging.captureWarnings} x logging {as is, every logger turned on}.  Oracle:
+     (1) the process-global state (vf/ref_ambient.py: warning filters / display hooks, logging tree, sys streams and hooks,
+     sys.path, environment, directory, random and numeric state ...; 'deep' configurations: every global of every package
+     module, the namespaces of the receiver's classes, the receiver, the alias function's attributes) is after the call of
+     the old name what it is after the call of the new name (control: untouched), no log record / output;
+     (2) the warning is an ordinary Python warning: displayed once through the program's channel, silent, or raised, as the
+     program's filters say - reference = plain-Python model of the filter resolution, cross-checked against a probe warning
+     issued by Python under the same configuration (disagreement = harness error);
+     (3) under every configuration the replacement gets the same arguments once and its result / exception comes back (when
+     errors were requested the call may stop at the warning: the replacement is then reached at most once).
 """
 from __future__ import annotations
 
@@ -82,7 +98,9 @@ TECHNIQUE = ('exhaustive enumeration of all discovered (receiver class, alias) p
              'resolution, every kind of object the replacement can be on the receiver (static / partial method, callable object, '
              'descriptor, instance attribute, patch ...) against the call of the new name on the same receiver, a hostile value '
              'alphabet (one-shot iterables, objects whose special methods raise or are recorded) through every renamed keyword, '
-             'plus paired old/new calls on real receivers from a recipe table, on the real package')
+             'plus paired old/new calls on real receivers from a recipe table, plus every alias under every ambient configuration '
+             'of the caller (stacks of warning filters x display channel x logging level) with a snapshot of the process-global '
+             'state before / after and a plain-Python model of the warning-filter resolution, on the real package')
 RULE = ('L0: toy declarations (5 forms) x receivers x shapes; L0H: every hierarchy over {inherit, ov-new, redecl, realias, '
         'plain-old} per class (chains of depth <= 3, thorough 4; diamonds, thorough with a class below) x {method, classmethod} '
         'x every access path on the bottom receiver x shapes x pools; L1X: every (class, alias) pair x receiver {override, '
@@ -94,7 +112,11 @@ RULE = ('L0: toy declarations (5 forms) x receivers x shapes; L0H: every hierarc
         'declaring class, instance} x receiver flavour x path x shapes x 3 pools; RK1: every (class, alias) pair x kind x position '
         '{own, patch (thorough: parent), instance} x shapes x pools; DPV: every decorated callable + a toy one x every obsolete '
         'keyword x 27 hostile value kinds x positional count x companion keyword; L2: every recipe x argument set (renamed '
-        'keywords that take an iterable: every iterable form, built anew for each side).  A case is non-trivial when the sentinel / both paired calls were '
+        'keywords that take an iterable: every iterable form, built anew for each side); ENV: toy declarations + every module-level '
+        'alias, obsolete keyword and alias declaration (thorough: every (class, alias) pair) x {2 bases x (no filter + 72 single '
+        'filters); 2 bases x 7 stacks x 4 channels x 2 logging levels; 576 ordered stacks of two (toy; thorough: functions and '
+        'keywords too; toy thorough: 216 stacks of three); 2 deep-state configurations}, the other pairs x 5 configurations in '
+        'the quick tier.  A case is non-trivial when the sentinel / both paired calls were '
         'actually executed and compared (L1 own: only when the receiver class resolves the replacement to another '
         'function than the class declaring the alias; TS: only when an independent candidate exists; DP: only with at '
         'least one obsolete keyword; L2: both sides executed - pairs where both raise the same exception type are '
@@ -118,6 +140,12 @@ ASSUMPTIONS = [
     'DPV / hostile pool: calling __format__ / __str__ / __repr__ of a value (quoting it in the warning) is tolerated and '
     'counted; any other special method called on a value, a consumed iterator or a refused value is a violation; values whose '
     'control call (new keyword) does not reach the function untouched are out of the domain',
+    'ENV: the replacement is a sentinel that does nothing, so "same side effects as the replacement" means "process state '
+    'untouched" (checked on the control call of the new name; a control that is not neutral is a harness error); Python\'s own '
+    'book-keeping of already displayed warnings (__warningregistry__, warnings.onceregistry) belongs to the warning and is not '
+    'part of the compared state (it is emptied before each call so that every call is a first call); module= / lineno= filters '
+    'are not in the alphabet (nothing is demanded about the stack level of the warning); "the warning" is read as an ordinary '
+    'Python DeprecationWarning, i.e. subject to the caller\'s filters like any other',
     'static-method aliases cannot see a receiver: for them only "keeps working" (reaches the declared or the resolved '
     'replacement) is demanded; there is none in the package today',
 ]
@@ -757,7 +785,7 @@ def toy_family():
         def new_s(self, *a, **k):
             log.append(('Other.new_s', a, k))
 
-    return dict(log=log, oldF=oldF, Base=Base, Sub=Sub, SubOv=SubOv, SubOv2=SubOv2, Other=Other)
+    return dict(log=log, oldF=oldF, new_f=new_f, Base=Base, Sub=Sub, SubOv=SubOv, SubOv2=SubOv2, Other=Other)
 
 
 L0_FORMS = [
@@ -2248,6 +2276,384 @@ def dpv_run(rec, tier):
                       dict(part='DPV', label=entry['label'], old=old, vk=vk, npos=npos, comp=comp))
 
 
+# =========================================================================== ENV: the caller's ambient configuration
+# "Calling the old name adds nothing but the warning" is quantified over PROGRAMS: a program decides how warnings are handled
+# (its stack of warning filters, where warnings are displayed, its logging levels) before it calls a deprecated name, and it
+# keeps running afterwards.  The other layers observe every call inside one recording context (all warnings shown and
+# collected); this layer enumerates the caller's configuration instead and observes what the call LEAVES BEHIND:
+#   alphabet  = base filter list {as inherited, reset} x stack of filters (action x category {Deprecation, every, unrelated,
+#               sibling} x message {any, names the replacement, matches nothing}; depth <= 1 on the full alphabet, <= 2 (3) on
+#               smaller ones) x display channel {recording context, the program's showwarning hook, text on stderr, routed to
+#               logging} x logging {as is, everything turned on};
+#   oracle    = (1) process-global state (vf.ref_ambient.process_state: warning filters / hooks, logging tree, sys streams and
+#               hooks, environment, directory, random / numeric state ...; 'deep': every global of every package module, the
+#               classes of the receiver, the alias function's own attributes) after the old name == after the new name
+#               (control: the new name, a sentinel, leaves it untouched);
+#               (2) the warning is an ordinary Python warning: whether it is displayed (once, through the program's channel),
+#               silent or raised is what the program's filters say - reference: the plain-Python model of filter resolution
+#               (vf.ref_ambient.model_action) cross-checked against Python itself (a probe DeprecationWarning that names the
+#               replacement, issued under the same configuration; disagreement = harness error);
+#               (3) whatever the configuration, the replacement receives the same arguments and its result comes back (when the
+#               program asked for errors the call may stop at the warning: the replacement is then reached at most once).
+ENV_TOY_QUICK = [('function', 'oldF', 'new_f', 'none'), ('method', 'oldM', 'new_m', 'Base'), ('method', 'oldM', 'new_m', 'SubOv'),
+                 ('method', 'oldM', 'new_m', 'SubOv-via-base'), ('classmethod', 'oldC', 'new_c', 'SubOv'),
+                 ('classmethod', 'oldC', 'new_c', 'Base-cls'), ('staticmethod', 'oldS', 'new_s', 'Base'),
+                 ('staticmethod-obj', 'oldS2', 'new_s', 'SubOv-cls')]
+ENV_SHARDS = {'quick': 24, 'thorough': 48}
+
+
+class _EnvTarget:
+    def __init__(self, **kw):
+        self.__dict__.update(kw)
+
+
+def _env_sink_target(sink, **kw):
+    return _EnvTarget(calls=lambda: [(a, k, True) for a, k in sink.calls], reset=lambda: sink.calls.clear(),
+                      result_ok=lambda r: r is sink.ret, sink_exc=sink.exc, **kw)
+
+
+class _SinkInBuiltins:
+    def __init__(self, sink):
+        self.sink = sink
+
+    def __enter__(self):
+        import builtins
+        builtins.__c20_sink__ = self.sink
+
+    def __exit__(self, *exc):
+        import builtins
+        try:
+            del builtins.__c20_sink__
+        except AttributeError:
+            pass
+        return False
+
+
+def env_build(tid, shape, pool):
+    """-> _EnvTarget | None (not applicable) | str (reason, counted)."""
+    import contextlib
+    import inspect
+    import sys
+
+    what = tid[0]
+    pos, kw, ret, raises = make_args(shape, pool)
+    if what == 'toy':
+        _, form, alias, newname, recv = tid
+        if raises or recv == 'other-first-arg':
+            return None
+        fam = toy_family()
+        log = fam['log']
+        if form == 'function':
+            old_f, new_f, lead, expect, exp_args, spaces = fam[alias], fam['new_f'], (), ['fun'], pos, []
+        else:
+            cname = recv.split('-')[0]
+            cls = fam[cname]
+            inst = object.__new__(cls)
+            lead = ()
+            if recv.endswith('-via-class'):
+                old_f, new_f, lead = getattr(cls, alias), getattr(cls, newname), (inst,)
+            elif recv.endswith('-via-base'):
+                old_f, new_f, lead = getattr(fam['Base'], alias), getattr(cls, newname), (inst,)
+            elif recv.endswith('-cls'):
+                old_f, new_f = getattr(cls, alias), getattr(cls, newname)
+            else:
+                old_f, new_f = getattr(inst, alias), getattr(inst, newname)
+            resolved = next(k.__name__ for k in cls.__mro__ if newname in vars(k))
+            if form.startswith('staticmethod'):
+                expect, exp_args = [f'{resolved}.{newname}', f'Base.{newname}'], lead + pos
+            else:
+                expect, exp_args = [f'{resolved}.{newname}'], pos
+            spaces = [(f'receiver-class-attributes:{k.__name__}', vars(k)) for k in cls.__mro__ if k is not object]
+            spaces.append(('receiver-state', vars(inst)))
+        spaces.append(('alias-function-attributes', vars(getattr(old_f, '__func__', old_f))))
+        return _EnvTarget(kind='decorator-level', label=f'toy {form} alias {alias} on receiver {recv}', names=[newname],
+                          old=(old_f, lead + pos, kw), new=(new_f, lead + pos, kw), exp_args=exp_args, exp_kw=kw,
+                          calls=lambda: [(a, k, who in expect) for who, a, k in log], reset=lambda: log.clear(),
+                          result_ok=lambda r: bool(log) and r is log[-1], sink_exc=None, ctx=contextlib.nullcontext(), spaces=spaces,
+                          keep_alive=fam)   # (an unreferenced class is emptied by the garbage collector: its namespace is observed)
+    sink = Sink(ret, raises)
+    if what in ('dp', 'toydp'):
+        _, label, old = tid
+        entry = dp_toy_entry() if what == 'toydp' else next((e for e in discover()['dp'] if e['label'] == label), None)
+        if entry is None:
+            return 'env_target_vanished'
+        obsolete = {}
+        for _, d in entry['levels']:
+            obsolete.update(d)
+        core = core_function(entry['func'])
+        if core is None:
+            return 'dp_core_not_swappable'
+        new = obsolete[old]
+        if new and new in kw:
+            return None
+        kw_old = {**kw, old: ret}
+        kw_new = {**kw, new: ret} if new else dict(kw)
+        return _env_sink_target(sink, kind='keyword' if what == 'dp' else 'decorator-level',
+                                label=f'{entry["label"]}({old}=...)' + ('' if new else ' [dropped keyword]'),
+                                names=[old] + ([new] if new else []), old=(entry['func'], pos, kw_old), new=(entry['func'], pos, kw_new),
+                                exp_args=pos, exp_kw=kw_new, ctx=CodeSwap(core, sink),
+                                spaces=[('alias-function-attributes', vars(entry['func']))])
+    if what == 'fun':
+        _, bmod, attr, newname, dmod = tid
+        alias = getattr(discover()['mods'][bmod], attr, None)
+        defmod = sys.modules.get(dmod)
+        target = getattr(defmod, newname, None) if defmod is not None else None
+        if alias is None or target is None or not callable(target):
+            return 'env_no_replacement_to_compare_with'   # (reported by L1F)
+        core = core_function(target)
+        if core is None:
+            return 'l1_replacement_not_swappable'
+        return _env_sink_target(sink, kind='function', label=f'{bmod}.{attr} -> {newname}', names=[newname],
+                                old=(alias, pos, kw), new=(target, pos, kw), exp_args=pos, exp_kw=kw, ctx=CodeSwap(core, sink),
+                                spaces=[('alias-function-attributes', vars(alias))])
+    if what == 'pair':
+        cmod, cqual, alias, newname, dmod, dqual, kind = pair = tuple(tid[1:])
+        C = _get_class(cmod, cqual)
+        raw_new = inspect.getattr_static(C, newname, None)
+        if raw_new is None:
+            modfun = getattr(sys.modules.get(dmod), newname, None)
+            if kind != 'static' or modfun is None or not callable(modfun) or core_function(modfun) is None:
+                return 'env_no_replacement_to_compare_with'   # (reported by L1)
+            T, nkind, ctx = _plain_sub(C), 'modfun', CodeSwap(core_function(modfun), sink)
+        else:
+            nkind = _unwrap_raw(raw_new)[1]
+            T, ctx = _throwaway(C, newname, nkind, 1), _SinkInBuiltins(sink)
+        try:
+            obj = object.__new__(T)
+        except TypeError:
+            return 'env_receiver_not_constructible'
+        recv = T if kind == 'class' else obj
+        exp_first = () if (kind == 'static' or nkind in ('static', 'modfun')) else (T,) if nkind == 'class' else (recv,)
+        old_f = getattr(recv, alias)
+        new_f = modfun if nkind == 'modfun' else getattr(recv, newname)
+        spaces = [(f'receiver-class-attributes:{i}', vars(k)) for i, k in enumerate(T.__mro__) if k is not object]
+        try:
+            spaces.append(('receiver-state', vars(obj)))
+        except TypeError:
+            pass
+        spaces.append(('alias-function-attributes', vars(getattr(old_f, '__func__', old_f))))
+        return _env_sink_target(sink, kind=kind, label=f'{cqual}.{alias} (declared in {dqual}) -> {newname}', names=[newname],
+                                old=(old_f, pos, kw), new=(new_f, pos, kw), exp_args=exp_first + pos, exp_kw=kw, ctx=ctx, spaces=spaces,
+                                keep_alive=(T, obj))
+    raise ValueError(tid)
+
+
+def _env_state(t, deep):
+    from vf import ref_ambient as RA
+
+    st = RA.process_state()
+    if deep:
+        for comp, ns in t.spaces:
+            RA.add_namespace(st, comp, ns)
+        mods = discover()['mods']
+        for name in sorted(mods):
+            RA.add_namespace(st, f'package-globals:{name}', vars(mods[name]))
+    return st
+
+
+def _env_call(amb, f, a, k):
+    from vf import ref_ambient as RA
+
+    n0 = len(amb.shown())
+    res = exc = None
+    try:
+        res = RA.call_fresh(f, a, k)
+    except BaseException as e:  # noqa
+        exc = e
+    return res, exc, amb.shown()[n0:]
+
+
+def _noise_delta(before, after):
+    (r0, o0, e0), (r1, o1, e1) = before, after
+    return r1[len(r0):], o1[len(o0):], e1[len(e0):]
+
+
+def env_probe(tid, cfg, shape, pool):
+    """One (target, ambient configuration) probe.
+    -> (bad, outcome) with bad = [(clause, detail, expected, observed, key suffix)] | None | str (counted reason)"""
+    import warnings
+    from vf import ref_ambient as RA
+
+    discover()   # (imports the whole package: never inside the observed window)
+    t = env_build(tid, shape, pool)
+    if t is None or isinstance(t, str):
+        return t
+    name = t.names[-1]
+    regex = '.*' + re.escape(name)
+    text = 'c20 ambient probe: ' + ' / '.join(t.names) + ' (names the replacement)'
+    bad = []
+    with t.ctx:
+        with RA.Ambient(cfg, regex, _SEED) as amb:
+            # -- the reference: the plain model, cross-checked by Python itself
+            action = RA.model_action(list(warnings.filters), warnings.defaultaction, text, DeprecationWarning, RA.CALLER_MODULE, 1)
+            want = RA.model_disposition(action)
+            _, pexc, pshown = _env_call(amb, warnings.warn, (text, DeprecationWarning), {})
+            python_says = ('raised' if isinstance(pexc, DeprecationWarning) and not pshown else
+                           'shown' if pexc is None and pshown == [('DeprecationWarning', text)] else
+                           'silent' if pexc is None and not pshown else 'odd')
+            if python_says != want:
+                return 'env_model_disagrees_with_python'
+            amb.fresh_registries()
+            # -- control: the new name leaves everything as it is
+            s0 = _env_state(t, cfg.get('deep'))
+            n0 = amb.noise()
+            cres, cexc, cshown = _env_call(amb, *t.new)
+            n1 = amb.noise()
+            s1 = _env_state(t, cfg.get('deep'))
+            ccalls = t.calls()
+            if (RA.diff_state(s0, s1) or cshown or any(_noise_delta(n0, n1)) or len(ccalls) != 1 or cexc is not t.sink_exc
+                    or (cexc is None and not t.result_ok(cres))
+                    or not (ccalls[0][2] and same_objs(ccalls[0][0], t.exp_args) and same_kw(ccalls[0][1], t.exp_kw))):
+                return 'env_control_not_neutral'
+            t.reset()
+            amb.fresh_registries()
+            # -- the old name
+            res, exc, shown = _env_call(amb, *t.old)
+            n2 = amb.noise()
+            s2 = _env_state(t, cfg.get('deep'))
+            calls = t.calls()
+            changes = RA.diff_state(s1, s2)
+            records, out, err = _noise_delta(n1, n2)
+    label = RA.config_label(cfg)
+    # (1) nothing left behind
+    for comp, desc in changes:
+        bad.append(('adds-more-than-the-warning', f'under the caller\'s configuration {label}: after the call of the old name, {comp}: {desc}; '
+                    f'the call of {name} leaves it as it was', 'process state as after the call of the new name', desc,
+                    'process-state:' + RA.component_class(comp)))
+    if records or out or err:
+        bad.append(('adds-more-than-the-warning', f'under {label}: log records {records[:3]}, stdout {out[:80]!r}, stderr {err[:80]!r}',
+                    'nothing', 'log records / output', 'output-or-log-records'))
+    dep = [s for s in shown if s[0] == 'DeprecationWarning']
+    if len(dep) != len(shown):
+        bad.append(('adds-more-than-the-warning', f'under {label}: other warnings displayed {[s for s in shown if s not in dep][:3]}', 0,
+                    len(shown) - len(dep), 'other-warnings'))
+    # (2) the warning is handled as the caller's filters say
+    raised = isinstance(exc, DeprecationWarning)
+    got = 'raised' if raised else f'shown {len(dep)}x' if dep else 'silent'
+    said = {'raised': 'raised', 'shown': 'shown 1x', 'silent': 'silent'}[want]
+    if got != said or (raised and dep):
+        bad.append(('warning-not-handled-as-the-callers-filters-say',
+                    f'under the caller\'s configuration {label} Python\'s filters make a DeprecationWarning that names {name} {want} '
+                    f'(model and a probe warning agree); the warning of the old name was {got}' + (' and also displayed' if raised and dep else '')
+                    + (f'; the call raised {type(exc).__name__}' if exc is not None and not raised and exc is not t.sink_exc else ''),
+                    said, got, f'callers-filters-say-{want}'))
+    for cat, msg in dep[:1]:
+        for nm in t.names:
+            if not re.search(r'(?<![A-Za-z0-9_])' + re.escape(nm) + r'(?![A-Za-z0-9_])', msg):
+                bad.append(('warning-does-not-name-replacement', f'message {msg!r} does not name {nm!r}', nm, msg, 'ambient'))
+    # (3) the replacement is served as under any other configuration
+    stopped_at_warning = raised and want == 'raised'
+    if not calls:
+        if not stopped_at_warning:
+            bad.append(('alias-does-not-reach-receivers-replacement', f'under {label}: the replacement was never called'
+                        + (f' (the alias raised {type(exc).__name__}: {_mask(str(exc))[:120]})' if exc is not None else ''),
+                        'replacement called once', 'not called', 'ambient'))
+    elif len(calls) > 1:
+        bad.append(('replacement-called-more-than-once', f'under {label}: {len(calls)} calls', 1, len(calls), 'ambient'))
+    else:
+        a, k, who_ok = calls[0]
+        if not who_ok:
+            bad.append(('alias-does-not-reach-receivers-replacement', f'under {label}: another function than the receiver\'s replacement ran',
+                        'the receiver\'s replacement', 'another one', 'ambient'))
+        if not same_objs(a, t.exp_args) or not same_kw(k, t.exp_kw):
+            bad.append(('arguments-not-passed-through', f'under {label}: {_sr(a)} {_sr(k)} instead of {_sr(t.exp_args)} {_sr(t.exp_kw)}',
+                        _sr((t.exp_args, t.exp_kw)), _sr((a, k)), 'ambient'))
+        if not stopped_at_warning:
+            if t.sink_exc is not None:
+                if exc is not t.sink_exc:
+                    bad.append(('exception-not-passed-through', f'under {label}: got {_sr(exc)}', _sr(t.sink_exc), _sr(exc), 'ambient'))
+            elif exc is not None:
+                bad.append(('alias-raises', f'under {label}: {type(exc).__name__}: {_mask(str(exc))[:120]}', 'no exception', type(exc).__name__, 'ambient'))
+            elif not t.result_ok(res):
+                bad.append(('result-not-passed-through', f'under {label}: returned {_sr(res)}', 'the replacement\'s return value', _sr(res), 'ambient'))
+    outcome = (t.kind.split(':')[0], want, got, len(calls), tuple(sorted({b[0] for b in bad})), cfg['channel'], bool(cfg.get('deep')))
+    return bad, outcome, t
+
+
+def env_report(rec, tid, cfg, shape, pool, r):
+    bad, outcome, t = r
+    case = dict(part='ENV', target=list(tid), cfg=cfg, shape=[shape[0], list(shape[1]), shape[2]], pool=pool)
+    for b in bad:
+        _viol(rec, 'ENV caller\'s ambient configuration', f'{t.kind}:{b[4]}', t.label, [b[:4]], case)
+
+
+def env_shapes(tid, tier):
+    if tid[0] in ('toy', 'toydp'):
+        return [(1, ('k1',), False), (0, (), False)] + ([(2, ('k1', 'k2'), False), (3, (), False)] if tier != 'quick' else [])
+    return [(1, ('k1',), False)]
+
+
+def env_config_sets(tid, tier, rich):
+    if tid[0] in ('toy', 'toydp'):
+        return ['DEEP', 'A', 'B', 'C'] + (['C3'] if tier != 'quick' else [])
+    if tier != 'quick':
+        return ['DEEP', 'A', 'B'] + (['C'] if tid[0] in ('fun', 'dp') else [])
+    return ['DEEP', 'A', 'B'] if rich else ['MIN']
+
+
+_ENV_CFG = {}
+
+
+def env_configs(names):
+    from vf import ref_ambient as RA
+
+    key = tuple(names)
+    if key not in _ENV_CFG:
+        _ENV_CFG[key] = [c for n in names for c in RA.config_sets(n)]
+    return _ENV_CFG[key]
+
+
+def env_toy_targets(tier):
+    if tier == 'quick':
+        toys = list(ENV_TOY_QUICK)
+    else:
+        toys = [(form, alias, newname, recv) for form, alias, newname, recvs in L0_FORMS for recv in recvs if recv != 'other-first-arg']
+    entry = dp_toy_entry()
+    olds = sorted(k for _, d in entry['levels'] for k in d)
+    return [['toy'] + list(x) for x in toys] + [['toydp', entry['label'], o] for o in olds]
+
+
+def env_pkg_targets():
+    """Every alias of the package: (target, rich) - rich = explored on the full configuration alphabet in the quick tier too:
+    every module-level alias binding, every obsolete keyword, every alias DECLARATION (on its declaring class when that class is
+    a receiver, else on the first class that inherits it); the other (receiver class, alias) pairs: rich in the thorough tier."""
+    D = discover()
+    out = [(['fun'] + list(b), True) for b in D['mod_aliases']]
+    for e in D['dp']:
+        for o in sorted(k for _, d in e['levels'] for k in d):
+            out.append((['dp', e['label'], o], True))
+    rep = {}
+    for p in D['pairs']:
+        d = (p[4], p[5], p[2])
+        if d not in rep or ((p[0], p[1]) == (p[4], p[5]) and (rep[d][0], rep[d][1]) != (p[4], p[5])):
+            rep[d] = p
+    reps = set(rep.values())
+    out += [(['pair'] + list(p), True) for p in D['pairs'] if p in reps]
+    out += [(['pair'] + list(p), False) for p in D['pairs'] if p not in reps]
+    return out
+
+
+def env_run(rec, targets, tier):
+    for tid, rich in targets:
+        n = 0
+        for shape in env_shapes(tid, tier):
+            for cfg in env_configs(env_config_sets(tid, tier, rich)):
+                r = env_probe(tid, cfg, shape, POOLS[_SEED % 2])
+                if r is None:
+                    continue
+                if isinstance(r, str):
+                    rec.count(r)
+                    continue
+                n += 1
+                from vf import ref_ambient as RA
+                lab = RA.config_label(cfg)
+                rec.case(('ENV', tuple(tid), lab, shape), (tid, lab, shape, r[1]), outcome=('ENV',) + r[1])
+                env_report(rec, tid, cfg, shape, POOLS[_SEED % 2], r)
+        rec.count('env_probes', n)
+        if n:
+            rec.count('env_targets_probed_' + tid[0])
+
+
 # =========================================================================== tasks
 L1_SHARDS = {'quick': 24, 'thorough': 48}
 L0H_SHARDS = {'quick': 3, 'thorough': 12}
@@ -2274,6 +2680,11 @@ def tasks(tier, seed):
         t.append(dict(part='L1X', shard=i, of=n, tier=tier))
     for i in range(n):
         t.append(dict(part='RK1', shard=i, of=n, tier=tier))
+    for tid in env_toy_targets(tier):
+        t.append(dict(part='ENV0', target=tid, tier=tier))
+    ne = ENV_SHARDS[tier]
+    for i in range(ne):
+        t.append(dict(part='ENV1', shard=i, of=ne, tier=tier))
     t.extend(l2_tasks(tier))
     return t
 
@@ -3416,6 +3827,20 @@ def run_task(task):
         rec.count('rk1_pairs_probed', len(pairs))
         if pairs:
             rec.sample(dict(part='RK1', shard=task['shard'], first_pair=list(pairs[0]), pairs=len(pairs)))
+    elif part == 'ENV0':
+        env_run(rec, [(task['target'], True)], tier)
+        rec.sample(dict(part='ENV0', target=task['target'], config_sets=env_config_sets(task['target'], tier, True),
+                        configurations=len(env_configs(env_config_sets(task['target'], tier, True)))))
+    elif part == 'ENV1':
+        allt = env_pkg_targets()
+        if task['shard'] == 0:
+            rec.count('env_package_targets', len(allt))
+        mine = allt[task['shard']::task['of']]
+        env_run(rec, mine, tier)
+        rec.count('env_package_targets_visited', len(mine))
+        if mine:
+            rec.sample(dict(part='ENV1', shard=task['shard'], targets=len(mine), first=mine[0][0],
+                            configurations_first=len(env_configs(env_config_sets(mine[0][0], tier, mine[0][1])))))
     elif part == 'L2':
         l2_run(task, rec)
     return rec.result()
@@ -3471,6 +3896,16 @@ def finalize(agg, tier, seed):
         agg.harness_errors.append((f'RK1 probed {c.get("rk1_pairs_probed")} pairs of {c.get("discovered_class_alias_pairs")}', {}))
     if not c.get('rk0_probes', 0) or not c.get('rk1_probes', 0) or not c.get('dpv_probes', 0):
         agg.harness_errors.append(('RK0 / RK1 / DPV explored nothing: the exploration would be vacuous', {}))
+    D_n = c.get('discovered_class_alias_pairs', 0) + c.get('discovered_module_level_alias_bindings', 0)
+    if not c.get('env_probes', 0) or c.get('env_package_targets_visited', 0) != c.get('env_package_targets', -1) \
+            or c.get('env_package_targets', 0) < D_n:
+        agg.harness_errors.append((f'ENV visited {c.get("env_package_targets_visited")} of {c.get("env_package_targets")} package targets '
+                                   f'({D_n} pairs + module-level aliases discovered), {c.get("env_probes")} probes: the exploration of the '
+                                   f'caller\'s configuration would be vacuous', {}))
+    for flag in ('env_model_disagrees_with_python', 'env_control_not_neutral', 'env_target_vanished'):
+        if c.get(flag, 0):
+            agg.harness_errors.append((f'{flag}: {c.get(flag)} probes - the reference side of ENV (the model of the warning filters / the '
+                                       f'call of the new name) does not behave as the harness assumes', {}))
     for flag in ('rk_model_disagrees_with_python', 'rk_new_name_call_is_not_silent', 'rk_new_name_call_unexpected'):
         if c.get(flag, 0):
             agg.harness_errors.append((f'{flag}: {c.get(flag)} probes - the reference side of RK (the call of the new name) does not '
@@ -3541,6 +3976,11 @@ def replay(case):
         r = dpv_probe(entry, case['old'], case['vk'], case['npos'], case['comp'])
         if r and not isinstance(r, str):
             _dpv_viol(rec, f'{entry["label"]}({case["old"]}=<{case["vk"]} value>)', r[0], r[2], case)
+    elif part == 'ENV':
+        shape = shp(case['shape'])
+        r = env_probe(case['target'], case['cfg'], shape, case['pool'])
+        if r is not None and not isinstance(r, str):
+            env_report(rec, case['target'], case['cfg'], shape, case['pool'], r)
     elif part == 'L2':
         l2_replay(case, rec)
     return rec.violations
